@@ -41,6 +41,21 @@ CLAIMED = {
         "monitored, not proved. The DS optimizer path (FD under vmap) is covered via direct calls of "
         "_fd_update_root, not through update().",
         "DESIGN.md 7/C09"),
+    "C16": (
+        "Coq proof (induction over the gradient sequence; reuse of the C09 FD theorems) + "
+        "correspondence with oracle values verified in Coq and a certified full-matrix root",
+        "Theorems in Properties/C16.v, for every history, learning rate, delta and every rsqrt oracle: "
+        "OGD and diagonal-AdaGrad iterates equal their closed forms; every sketched method's last "
+        "sketch row has eigenvalue zero; alpha_T = delta + f*sum rho_t^2; in the lossless case alpha "
+        "stays delta and the sketch equals the exact covariance (C09), each direction being scaled by "
+        "the factor that inverts delta+s_i (_partial: the matrix-level identity X X (delta I + C) = I "
+        "is decided at run time by a certificate, not proved). Tie: generate_init_update under x64 for "
+        "all six algorithms; chk_ogd / chk_ada / chk_oco / chk_full evaluated in Coq on exact dyadics.",
+        "Trusted: Coq kernel + vm_compute; no axioms. rsqrt/reciprocal/sqrt/SVD are oracles (values "
+        "checked against their specs to 2^-40 before use). Uniqueness of the PSD inverse square root is "
+        "not proved (full-matrix AdaGrad enters through a certified root). 'rank below sketch size => "
+        "rho = 0' monitored, not proved.",
+        "DESIGN.md 7/C16"),
 }
 
 NOT_YET = {}
